@@ -1010,3 +1010,27 @@ func isFreshError(v ssa.Value) bool {
 	}
 	return false
 }
+
+// returnedAlong follows the straight-line path starting with edge prev→b to a
+// Return and gives the value of result idx that this path returns (selecting
+// the phi operand that belongs to the path). nil when the path branches.
+func returnedAlong(prev, b *ssa.BasicBlock, idx int) ssa.Value {
+	for steps := 0; steps < 50; steps++ {
+		if r, ok := b.Instrs[len(b.Instrs)-1].(*ssa.Return); ok {
+			v := r.Results[idx]
+			if phi, ok := v.(*ssa.Phi); ok && phi.Block() == b {
+				for i, p := range b.Preds {
+					if p == prev {
+						return phi.Edges[i]
+					}
+				}
+			}
+			return v
+		}
+		if len(b.Succs) != 1 {
+			return nil
+		}
+		prev, b = b, b.Succs[0]
+	}
+	return nil
+}
